@@ -10,9 +10,17 @@ narrowest types:
  R  operator results: +, -, *, /, %, &, |, ^ of wide_integer<A, N1> and wide_integer<B, N2> have max(A, B) digits and are
     signed when either operand is; shifts and unary operators keep the left operand's digits and signedness;
     comparisons return bool.
+SIGN (engine CFG, vlib/signflow.py, on -O1 -fno-inline IR): how the signed multi-limb type reduces its operations to the
+unsigned limb arithmetic --
+ G1 is_neg tests the top bit of the most significant limb;
+ G2 operator/= and operator%= take magnitudes of exactly the negative operands, run ONE unsigned division on (copy of
+    *this, copy of other) and negate the quotient iff the signs differ, the remainder iff the dividend is negative
+    (division truncating toward zero), for each of the four sign valuations and every path;
+ G3 compare: a negative value is below a non-negative one, equal signs defer to the limb comparison of (this, other);
+ G4 right_shift_fill_value is all-ones for negative values and 0 otherwise (right shift of negatives arithmetic).
 Necessary conditions of the property; the limb arithmetic itself (carry propagation, Knuth division, shifts across
-limbs, sign handling of / and %) has data-dependent loops and is NOT decided — e.g. the seeded change M-C02-3 (remainder
-takes the divisor's sign in uintwide_t) is invisible here.
+limbs) has data-dependent loops and is NOT decided.  The seeded change M-C02-3 (remainder takes the divisor's sign in
+uintwide_t) was invisible to the type facts and is what rule G2 was written for.
 """
 import random
 from vlib import tc, facts as factmod, report
@@ -82,6 +90,107 @@ def gen(tier):
 
 FLOOR = {"quick": 900, "thorough": 12000}
 
+SIGN_TYPES = {"quick": [(200, "int"), (200, "std::int64_t"), (129, "std::int8_t"), (1000, "int")],
+              "thorough": [(200, "int"), (200, "std::int64_t"), (129, "std::int8_t"), (1000, "int"), (129, "int"), (200, "std::int16_t"), (257, "std::int64_t"), (512, "std::int16_t"), (2000, "std::int64_t")]}
+
+
+def sign_rules(r, work, tier):
+    """G1..G4 on every signed multi-limb instantiation of SIGN_TYPES; returns the number of rule instances decided"""
+    import os, re
+    from vlib import ir, signflow
+    types = SIGN_TYPES[tier]
+    src = tc.PRELUDE["clang"]
+    for i, (D, N) in enumerate(types):
+        src += "using SW%d = cnl::wide_integer<%d, %s>;\n" % (i, D, N)
+        src += 'extern "C" void sg_rem%d(SW%d& a, SW%d const& b) { a = a %% b; }\n' % (i, i, i)
+        src += 'extern "C" void sg_div%d(SW%d& a, SW%d const& b) { a = a / b; }\n' % (i, i, i)
+        src += 'extern "C" bool sg_lt%d(SW%d const& a, SW%d const& b) { return a < b; }\n' % (i, i, i)
+        src += 'extern "C" void sg_shr%d(SW%d& a, int n) { a = a >> n; }\n' % (i, i)
+    p, out = os.path.join(work, "sign.cpp"), os.path.join(work, "sign.ll")
+    open(p, "w").write(src)
+    rc, so, se, cmd = tc.clang_ll(p, out, "o1ni")
+    if rc != 0:
+        raise tc.AnalysisBroken("sign-rule TU does not compile: " + se[:1500])
+    text = open(out).read()
+    mod = ir.parse_module(text)
+    dem = tc.demangle(sorted(set(list(mod.functions) + re.findall(r"@([\w.$]+)\(", text))))
+    done = {"G1": 0, "G2": 0, "G3": 0, "G4": 0}
+    control_seen = False
+    insts = {}
+    for n, d in dem.items():
+        if n not in mod.functions:
+            continue
+        m = re.match(r"^(?:[\w ]+ )?cnl::_impl::math::wide_integer::uintwide_t<(\d+)u, ([^,<>]+), void, true>::(operator/=|operator%=|is_neg<true|compare<true|right_shift_fill_value)(?:, \(void const\*\)0>)?\(", d)
+        if not m:
+            continue
+        insts.setdefault((m.group(1), m.group(2)), {})[m.group(3)] = n
+    for (W, L), fns in sorted(insts.items()):
+        tag = "uintwide_t<%s, %s, signed>" % (W, L)
+        for what, rule in (("is_neg<true", "G1"), ("operator/=", "G2"), ("operator%=", "G2"), ("compare<true", "G3"), ("right_shift_fill_value", "G4")):
+            n = fns.get(what)
+            if n is None:
+                r.broke("sign rule %s: %s::%s is not in the module (anchor vanished)" % (rule, tag, what))
+                continue
+            fn = mod.functions[n]
+            key = "sign/%s/%s/%s" % (rule, tag, what)
+            try:
+                if rule == "G1":
+                    t = signflow.sign_test(mod, fn, dem)
+                    if t:
+                        r.violation(key, "%s::is_neg: %s" % (tag, t), {"function": dem[n], "ir": fn.text()}, finding_key="sign/G1")
+                elif rule == "G2":
+                    op = "/" if what == "operator/=" else "%"
+                    probs, st = signflow.analyse(mod, fn, dem, op)
+                    if not control_seen:
+                        cp, _ = signflow.analyse(mod, fn, dem, op, swap=True)
+                        if not cp:
+                            r.broke("sign rule control: %s judged with dividend and divisor exchanged was not refuted" % what)
+                        control_seen = True
+                    for (val, path, txt) in probs[:1]:
+                        r.violation(key, "%s::%s with %s: %s (path through blocks %s; %d problem(s) over the four sign valuations)" % (tag, what, val, txt, " -> ".join(path), len(probs)),
+                                    {"function": dem[n], "problems": [(v, " -> ".join(pp), t) for v, pp, t in probs], "ir": fn.text()}, finding_key="sign/G2")
+                elif rule == "G3":
+                    outv, idxs, ps = signflow.returned(mod, fn, dem)
+                    if idxs != [0, 1]:
+                        raise signflow.Undecided("compare: sign tests of both operands expected")
+                    bad = []
+                    for (s, t), vals in sorted(outv.items()):
+                        if any(v[0] == "opaque" for v in vals):
+                            raise signflow.Undecided("compare: returned value not recognised: %r" % (sorted(vals),))
+                        if s and not t:
+                            ok = vals == {("const", -1)}
+                            want = "-1"
+                        elif t and not s:
+                            ok = vals == {("const", 1)}
+                            want = "1"
+                        else:
+                            ok = len(vals) == 1 and all(v[0] == "call" and "::compare_ranges<" in v[1] and v[2][:2] == (ps[0], ps[1]) for v in vals)
+                            want = "compare_ranges(this->values, other.values)"
+                        if not ok:
+                            bad.append("this %s, other %s: returns %s, expected %s" % ("negative" if s else "non-negative", "negative" if t else "non-negative",
+                                                                                         ", ".join(("%s(%s)" % (v[1].split("(")[0].split("::")[-1], ", ".join(v[2])) if v[0] == "call" else str(v[1])) for v in sorted(vals, key=str)), want))
+                    if bad:
+                        r.violation(key, "%s::compare: %s" % (tag, "; ".join(bad)), {"function": dem[n], "ir": fn.text()}, finding_key="sign/G3")
+                else:
+                    outv, idxs, ps = signflow.returned(mod, fn, dem)
+                    if idxs != [0]:
+                        raise signflow.Undecided("right_shift_fill_value: a sign test of *this expected")
+                    neg, pos = outv[(True,)], outv[(False,)]
+                    lw = {"unsigned char": 8, "unsigned short": 16, "unsigned int": 32, "unsigned long": 64}.get(L)
+                    ones = {("const", -1), ("const", 2 ** lw - 1)} if lw else {("const", -1)}
+                    okn = len(neg) == 1 and (neg <= ones or all(v[0] == "call" and re.match(r"^std::numeric_limits<%s>::max\(\)$" % re.escape(L), v[1]) for v in neg))
+                    if any(v[0] == "opaque" for v in neg | pos):
+                        raise signflow.Undecided("fill value not recognised: %r / %r" % (sorted(neg, key=str), sorted(pos, key=str)))
+                    if not okn or pos != {("const", 0)}:
+                        r.violation(key, "%s::right_shift_fill_value: negative -> %s, non-negative -> %s (expected all-ones / 0)" % (tag, sorted(neg, key=str), sorted(pos, key=str)),
+                                    {"function": dem[n], "ir": fn.text()}, finding_key="sign/G4")
+                done[rule] += 1
+            except signflow.Undecided as e:
+                r.broke("%s: undecided: %s" % (key, e))
+    if not control_seen:
+        r.broke("sign rule control did not run")
+    return done, len(insts)
+
 
 def run(tier, seed, work):
     r = report.Run(PROP, tier, seed, "other")
@@ -91,11 +200,17 @@ def run(tier, seed, work):
     common.check_fact_controls(r, fctl)
     nf = common.settle_facts(r, F)
     common.floor_check(r, "type facts proved", nf["proved"], FLOOR[tier])
+    done, ninst = sign_rules(r, work, tier)
+    want = len(SIGN_TYPES[tier])
+    common.floor_check(r, "signed multi-limb instantiations under the sign rules", ninst, want)
+    for g, k in (("G1", 1), ("G2", 2), ("G3", 1), ("G4", 1)):
+        common.floor_check(r, "sign rule %s instances decided" % g, done[g], k * want)
     good = [f for f in F if f.status == "proved"]
     rng = random.Random(seed)
     r.coverage = {
-        "explanation": "Type-level clauses only: multi-limb storage (limb type, signedness, smallest sufficient width incl. the sign bit), numeric_limits/digits/signedness, result digits (max) and signedness (either) of the binary operators, shifts and unary operators keep the operand's type, comparisons return bool. The limb arithmetic itself (values) is NOT decided.",
+        "explanation": "Type-level clauses and the sign discipline G1-G4 of the signed multi-limb type (path rule over the four sign valuations on -O1 -fno-inline IR): multi-limb storage (limb type, signedness, smallest sufficient width incl. the sign bit), numeric_limits/digits/signedness, result digits (max) and signedness (either) of the binary operators, shifts and unary operators keep the operand's type, comparisons return bool. The limb arithmetic itself (values) is NOT decided.",
         "evaluations": len(F), "distinct_nontrivial": nf["proved"], "rule": "non-trivial = proved type fact (clang value equal to the oracle's and confirmed by g++ static_assert)",
+        "sign_rule_instantiations": ninst, "sign_rule_G1_is_neg": done["G1"], "sign_rule_G2_division": done["G2"], "sign_rule_G3_compare": done["G3"], "sign_rule_G4_shift_fill": done["G4"],
         "type_facts": len(F), "type_facts_proved": nf["proved"], "type_facts_refuted": nf["refuted"], "rejected_by_library": nf["rejected"],
         "samples": [{"key": f.key, "expr": f.expr, "value": f.value} for f in rng.sample(good, min(8, len(good)))], "exhaustive": False,
     }
